@@ -11,7 +11,7 @@ import (
 )
 
 func init() {
-	register("C06", "Decided: 'never panics, never over-allocates' is a property of every operation on peer-controlled data, which the checker enumerates over the read side (everything reachable from serve, plus Subscribe's use of the received SUBACK). R-C06-1 every index / slice / string-index obligation is discharged by dominating length facts, lifted preconditions proved at every call site, or callee result summaries (sound linear reasoning; narrow unsigned arithmetic is treated as wrapping, i.e. opaque); R-C06-2 the packet body allocation is non-negative and at most 2^28-1 (bit-width domain with stride-aware loop counters) on 64- and 32-bit int; R-C06-3 no other panic source on the read side (explicit panic, single-result type assertion, division, close, send on a closed channel, nil-map write) outside a reasoned table; R-C06-4 malformed input ends the link: every readPacket/Parse error is returned by serve, unknown types and bad flags/lengths/QoS 3/U+0000 are rejected with the documented sentinels, serve has no nil return; R-C06-5 the error becomes observable (reader exit records it, reports Closed, closes Done()); R-C06-6 length guards are exact, so well-formed packets are not rejected. Not decided: panics inside user handlers or the Transport; memory held by many in-flight packets.", checkC06)
+	register("C06", "Decided: 'never panics, never over-allocates' is a property of every operation on peer-controlled data, which the checker enumerates over the read side (everything reachable from serve, plus Subscribe's use of the received SUBACK). R-C06-1 every index / slice / string-index obligation is discharged by dominating length facts, lifted preconditions proved at every call site, or callee result summaries (sound linear reasoning; narrow unsigned arithmetic is treated as wrapping, i.e. opaque); R-C06-2 the packet body allocation is non-negative and at most 2^28-1 (bit-width domain with stride-aware loop counters) on 64- and 32-bit int; R-C06-3 no other panic source on the read side (explicit panic, single-result type assertion, division, close, send on a closed channel, nil-map write) outside a reasoned table; R-C06-4 malformed input ends the link: every readPacket/Parse error is returned by serve, unknown types and bad flags/lengths/QoS 3/U+0000 are rejected with the documented sentinels, serve has no nil return; R-C06-5 the error becomes observable (reader exit records it, reports Closed, closes Done()). Not decided: panics inside user handlers or the Transport; memory held by many in-flight packets.", checkC06)
 }
 
 // readSide: functions reachable from serve plus subscribeImpl.
@@ -38,7 +38,6 @@ func checkC06(r *Run) {
 	r3 := r.Rule("R-C06-3", "no other panic source on the read side outside the reasoned table")
 	r4 := r.Rule("R-C06-4", "malformed => link ends with an error: no dropped readPacket/Parse error, default arm rejects, flag/length/QoS/rune checks return the documented sentinels, serve never returns nil")
 	r5 := r.Rule("R-C06-5", "the error becomes observable: reader exit records it before reporting Closed and closing Done()")
-	r6 := r.Rule("R-C06-6", "length guards are exact: a guard that rejects with ErrInvalidPacketLength is not stricter than the strongest bound obligation it protects")
 	r1.Floor(30)
 	r4.Floor(20)
 	if c.Method("BaseClient", "serve") == nil {
@@ -112,8 +111,6 @@ func checkC06(r *Run) {
 	// ---- R-C06-5
 	c.ruleReaderExit(r5)
 	c.ruleReaderRecords(r5)
-	// ---- R-C06-6
-	c.tightnessFrom(r6, b, nil)
 }
 
 // ruleGuardTightness (used by C04/C05/C07): run the prover over the read side and report over-strict guards in the
